@@ -33,6 +33,7 @@ def agree(a, b, scale):
 def suite_eval(ctx, case):
     name = case['cls']; kind = NAMES[name]; hc = case['hc']
     r = np.array(case['r'], dtype=float); g = np.array(case['gamma'], dtype=float); u = np.array(case['u'], dtype=float)
+    if case.get('uint'): u = np.rint(u).astype(int)          # an integer-TYPED potential array, e.g. a square well np.where(r < 1.5, -2, 0)
     sigma = case['sigma']
     c = getattr(CL, name)(apply_hard_core=hc)
     c.sigma = sigma; c.potential = u
@@ -101,7 +102,12 @@ def suite_history(ctx, case):
     c.sigma = case['sigma']; c.potential = u
     kept = []
     for step, (op, val) in enumerate(case['steps']):
-        if op == 'scale_inplace': c.potential *= val
+        if op == 'flag':
+            c.apply_hard_core = bool(val); hc = bool(val)          # the documented attribute is re-assigned on the live object
+        elif op == 'assign_int': c.potential = np.array(val, dtype=int)
+        elif op == 'scale_inplace':
+            if c.potential.dtype.kind == 'i': c.potential = c.potential * val
+            else: c.potential *= val
         elif op == 'set_inplace': c.potential[int(val[0]) % len(r):] = val[1]
         elif op == 'assign': c.potential = np.array(val, dtype=float)
         elif op == 'sigma': c.sigma = val
@@ -153,17 +159,19 @@ def gen_case(rng, maxL):
     elif uk == 'zero': u = [0.0 for _ in r]
     else: u = [rng.gauss(0, 1e-3) for _ in r]
     return {'cls': rng.choice(list(NAMES)), 'hc': rng.random() < 0.5, 'sigma': sigma, 'r': r, 'gamma': g, 'u': u,
-            'probe': rng.randrange(1000), 'fam': [sk, gk, uk]}
+            'probe': rng.randrange(1000), 'fam': [sk, gk, uk], 'uint': uk == 'random' and rng.random() < 0.3}
 
 def gen_history(rng):
     base = gen_case(rng, 24)
     L = len(base['r'])
     steps = [['none', 0]]
     for _ in range(rng.randint(2, 5)):
-        k = rng.choice(['scale_inplace', 'scale_inplace', 'set_inplace', 'assign', 'sigma', 'none'])
+        k = rng.choice(['scale_inplace', 'scale_inplace', 'set_inplace', 'assign', 'sigma', 'none', 'flag', 'flag', 'assign_int'])
         if k == 'scale_inplace': v = rng.choice([0.5, 2.0, 0.25, 1.7])
         elif k == 'set_inplace': v = [rng.randrange(L), rng.choice([0.0, 0.3, -0.2])]
         elif k == 'assign': v = [rng.gauss(0, 1) for _ in range(L)]
+        elif k == 'assign_int': v = [rng.choice([-2, -1, 0, 0, 1, 3]) for _ in range(L)]
+        elif k == 'flag': v = rng.random() < 0.5
         elif k == 'sigma': v = base['r'][rng.randrange(L)] * rng.choice([1.0, 1.0, 1.3])
         else: v = 0
         steps.append([k, v])
